@@ -104,7 +104,13 @@ class HDict(dict):
 _ODD_INTS = {"e": 2**62 + 11, "f": -1, "~f": -2}
 
 FLAVOURS = ["str", "int", "tuple", "dc", "dictwrap", "obj_cb", "obj_sub", "dict_explicit", "obj_fwd", "dict_cb"]
-FLAVOURS_ALL = FLAVOURS + ["money"]
+FLAVOURS_ALL = FLAVOURS + ["money", "str_kid"]
+
+
+class KidTypedTree(TypedTree):
+    """a TypedTree whose default kind is overridden (DEFAULT_CHILD_TYPE is a documented class constant)"""
+
+    DEFAULT_CHILD_TYPE = "kid"
 
 
 class Flavour:
@@ -112,6 +118,9 @@ class Flavour:
 
     def __init__(self, name: str = "str"):
         assert name in FLAVOURS_ALL, name
+        self.kid = name == "str_kid"  # plain strings; typed trees are KidTypedTrees
+        if self.kid:
+            name = "str"
         self.name = name
         self.pool: dict[str, object] = {}
         self.labels: dict[int, str] = {}  # id(data) -> label (for non-str data)
@@ -132,6 +141,8 @@ class Flavour:
             return cls(name, calc_data_id=_cb_guid, forward_attrs=True)
         if self.name == "obj_sub":
             return (GuidTypedTree if typed else GuidTree)(name)
+        if typed and self.kid:
+            return KidTypedTree(name)
         return (TypedTree if typed else Tree)(name)
 
     # -- data ----------------------------------------------------------------
